@@ -18,11 +18,12 @@ import os, re, sys, threading, time, traceback, types, collections
 import paho.mqtt.client as mqtt
 from vlib import impl, model
 
-RULE = ("full product {callback site (24 conversations: CONNACK; SUBACK; UNSUBACK; inbound PUBLISH QoS0/1/2+PUBREL, "
+RULE = ("full product {callback site (38 conversations: CONNACK; SUBACK; UNSUBACK; inbound PUBLISH QoS0/1/2+PUBREL, "
         "per-topic callback QoS0/2; QoS0 completion, PUBACK, PUBCOMP; EOF, server DISCONNECT, keepalive expiry, "
         "disconnect() completion; on_socket_open/close/register_write/unregister_write; on_pre_connect; on_log at top "
         "level and under _in_callback_mutex+_out_message_mutex; on_socket_register_write under both locks; "
-        "on_connect_fail; on_pre_connect nested in reconnect() from on_connect)} x {publish q0, publish q1, subscribe, "
+        "on_connect_fail; depth 2 (callback -> API -> callback -> measured call) for on_pre_connect, on_log, register/unregister_write, "
+        "on_socket_open/close under the outer callback's locks)} x {publish q0, publish q1, subscribe, "
         "unsubscribe, disconnect, reconnect, message_callback_add, message_callback_remove, loop_stop} x "
         "{loop(), loop_read/loop_write/loop_misc, loop_start() thread} x {no socket callbacks, all four, open+register "
         "only} x {MQTT 3.1.1, MQTT 5}; combinations that cannot occur (callback not installed in that configuration, "
@@ -769,15 +770,21 @@ SCENARIOS = collections.OrderedDict([
     ("unregw_outmsg", ("on_socket_unregister_write", "sock:all,open", False, _locked_at_connack("on_socket_unregister_write", ("_out_message_mutex",)))),
     ("disc_in_puback", ("on_disconnect", "manual+sock:none", True, sc_disc_in_puback)),
     # depth 2: callback -> API call(s) -> callback -> measured API call
-    ("pre_connect_nested", ("on_pre_connect", "sock:none,open", True, sc_connect, (["reconnect"], "on_pre_connect", held_is("_in_callback_mutex")))),
+    ("pre_connect_nested", ("on_pre_connect", None, True, sc_connect, (["reconnect"], "on_pre_connect", held_is("_in_callback_mutex")))),
     ("log_in_cb", ("on_log", None, False, sc_connect, (["publish"], "on_log", held_is("_in_callback_mutex")))),
     ("regw_in_cb", ("on_socket_register_write", "sock:all,open", False, sc_connect, (["publish"], "on_socket_register_write", held_is("_in_callback_mutex")))),
     ("unregw_in_cb", ("on_socket_unregister_write", "sock:all,open", True, sc_sub, (["publish", "reconnect"], "on_socket_unregister_write", held_is("_in_callback_mutex")))),
     ("unregw_both", ("on_socket_unregister_write", "sock:all,open", True, sc_pub_q1, (["publish", "reconnect"], "on_socket_unregister_write", held_is(*BOTH)))),
-    ("pre_connect_both", ("on_pre_connect", "sock:none,open", True, sc_pub_q1, (["reconnect"], "on_pre_connect", held_is(*BOTH)))),
+    ("pre_connect_both", ("on_pre_connect", None, True, sc_pub_q1, (["reconnect"], "on_pre_connect", held_is(*BOTH)))),
     ("pre_connect_outmsg", ("on_pre_connect", None, True, sc_log_outmsg, (["reconnect"], "on_pre_connect", held_is("_out_message_mutex")))),
-    ("sock_close_both", ("on_socket_close", "sock:all", True, sc_regw_outmsg, (["reconnect"], "on_socket_close", held_is(*BOTH)))),
-    ("sock_open_both", ("on_socket_open", "sock:all,open", True, sc_regw_outmsg, (["reconnect"], "on_socket_open", held_is(*BOTH)))),
+    # since 5844bc2 on_socket_open / on_socket_close run without _in_callback_mutex of their own: they hold
+    # whatever the caller of reconnect() holds
+    ("sock_close_outmsg", ("on_socket_close", "sock:all", True, sc_regw_outmsg, (["reconnect"], "on_socket_close", held_is("_out_message_mutex")))),
+    ("sock_open_outmsg", ("on_socket_open", "sock:all,open", True, sc_regw_outmsg, (["reconnect"], "on_socket_open", held_is("_out_message_mutex")))),
+    ("sock_close_in_cb", ("on_socket_close", "sock:all", True, sc_connect, (["reconnect"], "on_socket_close", held_is("_in_callback_mutex")))),
+    ("sock_open_in_cb", ("on_socket_open", "sock:all,open", True, sc_connect, (["reconnect"], "on_socket_open", held_is("_in_callback_mutex")))),
+    ("sock_close_both", ("on_socket_close", "sock:all", True, sc_pub_q1, (["reconnect"], "on_socket_close", held_is(*BOTH)))),
+    ("sock_open_both", ("on_socket_open", "sock:all,open", True, sc_pub_q1, (["reconnect"], "on_socket_open", held_is(*BOTH)))),
 ])
 
 
@@ -1065,6 +1072,18 @@ def run(ctx, out):
         for a in p.thread_errors[:3]:
             if not isinstance(a.exc_value, SelfDeadlock):
                 out.notes.append("exception in a client thread: " + repr(a.exc_value)[:200])
+        # regression: the conversations that self-deadlocked before 8b6a5ee / 5844bc2 must now return
+        reg = regression_cases()
+        for c in reg:
+            r = run_case(c["scenario"], c["api"], c["loop"], c["sockcfg"], c["proto"])
+            out.cases += 1
+            if r["outcome"] == "ok" and r.get("written") is not False:
+                out.stat("regression-replays-pass")
+            else:
+                out.stat("regression-replays-FAIL")
+                out.violations.append({"case": c, "signature": "F-C18-regression-" + signature(r.get("callback", "none"), c["api"], r.get("lock", r["outcome"])),
+                                       "what": f"regression replay (fixed finding F-C18a/b/c) fails again: {r['outcome']} {r.get('lock')} in {r.get('method')}",
+                                       "stack": r.get("stack")})
     out.stat("run_s", round(time.time() - t0, 1))
     sigs = judge(results, out)
     # the model's stuck sites for the all-installed configuration, for the evidence
@@ -1089,6 +1108,20 @@ def run(ctx, out):
     for r in results[:2]:
         out.sample({k: v for k, v in r.items() if not k.startswith("_")})
     out.exhaustive = not (ctx.quick and ctx.scale == 1)
+
+
+def regression_cases():
+    here = os.path.dirname(os.path.dirname(os.path.abspath(__file__)))
+    cases = []
+    p = os.path.join(here, "corpus", "C18", "stuck_triples.json")
+    if os.path.exists(p):
+        import json
+        cases += json.load(open(p)).get("cases", [])
+    # F-C18a: reconnect() inside on_message / a per-topic callback of an inbound QoS 2 message
+    for scn in ("msg_q2", "topic_q2"):
+        for loop in ("rwm", "thread"):
+            cases.append({"scenario": scn, "api": "reconnect", "loop": loop, "sockcfg": "all", "proto": 5})
+    return [c for c in cases if c.get("scenario") in SCENARIOS]
 
 
 def replay(payload):
@@ -1125,9 +1158,10 @@ def finding_still_fails(f):
                     if r["outcome"] == "ok" and r.get("written") is False:
                         return True, {"scenario": scn, "sockcfg": sockcfg, "rc": r.get("rc"), "written": False}
         return False, {"tried": tried}
-    m = re.match(r"F-C18-(\w+)-(\w+)-(\w+)$", f["sig"])
+    m = re.match(r"F-C18-(\w+)-(loop_stop)-(loop_thread_join)$", f["sig"])
     if not m:
-        return False, "signature not understood"
+        # lock self-deadlock signatures (F-C18a/b/c) are fixed: they are regression replays, not known findings
+        return False, "only F-C18d (notwritten) and F-C18e (loop_thread_join) signatures are known findings"
     cb, api, lock = m.groups()
     tried = []
     with Patched():
@@ -1135,8 +1169,8 @@ def finding_still_fails(f):
             cbname = spec[0]
             if cbname != cb:
                 continue
-            for sockcfg in ("all", "open"):
-                for loop in ("rwm", "thread"):
+            for sockcfg in ("all", "open", "none"):
+                for loop in ("thread",):
                     if not applicable(scn, loop, sockcfg, 5):
                         continue
                     r = run_case(scn, api, loop, sockcfg, 5)
